@@ -11,7 +11,7 @@ META = {
     "bounds": {
         "quick": {"torn": "every cut point 0..len(block) of the commit's user-block write, for base commit and patch commit, IH5Record and IH5MFRecord",
                   "crash": "every one of the (12-20) mutating primitives of: open r+ (create or continue patch), 3 data/attribute operations, commit, close; from 4 on-disk situations; IH5Record and IH5MFRecord"},
-        "thorough": {},
+        "thorough": {"(same as quick)": ""},
     },
     "outside": ["kills inside an h5py/HDF5 library write (payload is abstract)", "fsync/rename durability, write reordering on power loss",
                 "tearing of writes other than the user block (manifest files are written after the container is committed)"],
@@ -31,10 +31,21 @@ def plan(tier, seed):
         for sit in (2, 3, 4, 5):
             parts.append(Part(H, "crash", {"cls": c, "sit": sit}, 600, 60,
                               "death at any mutating primitive: committed files byte-identical and open alone with the committed view; full set: fails / uncommitted patch recognisable / fully committed new state"))
+    # recognisability: an uncommitted container is tolerated only as the newest one and a stored hash
+    # always has to verify (chain harness of C04; these are the clauses a crash-left file set relies on)
+    import itertools
+    for n in (1, 2, 3):
+        for h in itertools.product((0, 1, 2), repeat=n):
+            if 0 in h or 2 in h:
+                parts.append(Part("vt.harness.c04", "chain", {"n": n, "h": list(h)}, 600, 60,
+                                  "a file set with an uncommitted inner container or a non-verifying hash (as left by a crash + later activity) never opens"))
     return parts
 
 
 def confirm(part, kwargs, native):
+    if part.module.endswith("c04"):
+        from vt.props import c04
+        return c04.confirm(part, kwargs, native)
     if part.func == "torn":
         p2 = Part(H, part.func, dict(part.sel, realfs=1))
         r = replay_native(p2, repr(kwargs))
